@@ -470,7 +470,7 @@ void case_lat(uint64_t i, vh::Rng& rng) {
     if (stride > 1 && lo == LAT_MIN) lat_run(LAT_MIN, LAT_MIN, 1, lonc, 1, 0, l);
     if (stride > 1 && hi == LAT_MAX) lat_run(LAT_MAX, LAT_MAX, 1, lonc, 1, 0, l);
     l.flush();
-    if (i % 400 == 7) vh::sample_str(vh::st().case_desc);
+    if (i % 1000 == 7) vh::sample_str(vh::st().case_desc);
 }
 
 const int64_t NB_RADIUS = 10000;
@@ -518,7 +518,7 @@ void case_lon(uint64_t i, vh::Rng& rng) {
     if (stride > 1 && lo == LON_MIN) lon_run(LON_MIN, LON_MIN, 1, latc, 1, 0, l);
     if (stride > 1 && hi == LON_MAX) lon_run(LON_MAX, LON_MAX, 1, latc, 1, 0, l);
     l.flush();
-    if (i % 800 == 11) vh::sample_str(vh::st().case_desc);
+    if (i % 2000 == 11) vh::sample_str(vh::st().case_desc);
 }
 
 void case_lonnb(uint64_t i, vh::Rng& rng) {
